@@ -89,6 +89,23 @@ def run(chk):
                              f"exact {[round(w, 6) for w in want][:4]}...", info)
             if len(list(dyn.times)) != N + 1 or list(dyn.times) != [start + k * dt for k in range(N + 1)]:
                 chk.fail("meanfield-times:" + which, f"{which}: times of the mean-field dynamics are not the grid", info)
+            if which == "cdwf":
+                # record_all=False: the same evaluations of field_eom (time, states, field), the same final field / state / time
+                log_all = list(eom.log)
+                try:
+                    dynf = drive(which, eom, start, dt, N, a0, record_all=False)
+                    same_calls = list(eom.log) == log_all
+                    same_final = (len(dynf.fields) == 1 and complex(dynf.fields[-1]) == fields[-1] and list(dynf.times) == [list(dyn.times)[-1]]
+                                  and np.array_equal(np.array(dynf.system_dynamics[0].states[-1]), np.array(dyn.system_dynamics[0].states[-1])))
+                    chk.search_cases += 1
+                    chk.count("cdwf_record_all_false")
+                    if not (same_calls and same_final):
+                        first = next((i for i, (x, y) in enumerate(zip(eom.log, log_all)) if x != y), None)
+                        chk.fail("record-all-changes-result", "compute_dynamics_with_field(record_all=False) " +
+                                 (f"evaluates field_eom with different (time, states, field) from evaluation {first} on" if not same_calls else
+                                  "returns a final field / state / time different from the last entry of the record_all=True run"), info)
+                except Exception as ex:
+                    chk.fail("meanfield-raises", f"compute_dynamics_with_field(record_all=False) raises {ex!r}", info)
 
     vals, errs = run_cases("C09", HEADER, exprs)
     for e in errs:
@@ -127,6 +144,15 @@ def run(chk):
             continue
         chk.search_cases += 1
         chk.count("side_by_side")
+        try:
+            d3 = quiet(oqupy.compute_dynamics_with_field, mfs, a0, process_tensor_list=pts, start_time=start, initial_state_list=rhos,
+                       subdiv_limit=None, record_all=False, progress_type="silent")
+            devf = max([abs(complex(d3.fields[-1]) - complex(d2.fields[-1]))] +
+                       [np.abs(np.array(d3.system_dynamics[i].states[-1]) - np.array(d2.system_dynamics[i].states[-1])).max() for i in range(nsys)])
+            if devf > 1e-12 or list(d3.times) != [list(d2.times)[-1]]:
+                chk.fail("record-all-changes-result", f"compute_dynamics_with_field(record_all=False): final field / states differ from the record_all=True run by {devf:.2e}", info)
+        except Exception as ex:
+            chk.fail("meanfield-raises", f"compute_dynamics_with_field(record_all=False) raises {ex!r}", info)
         dev = np.abs(np.array(d1.fields) - np.array(d2.fields)).max()
         for i in range(nsys):
             dev = max(dev, np.abs(np.array(d1.system_dynamics[i].states) - np.array(d2.system_dynamics[i].states)).max())
